@@ -9,6 +9,7 @@
   the dtype of the merged array is the dtype of the first piece visited (defect F4 is fixed).
 -/
 import FcModel.Mesh
+import FcModel.Merge
 namespace Fc.C06
 
 /-- `_locations_in(shape)`: all index tuples below `shape`, the FIRST index running fastest -/
@@ -85,10 +86,14 @@ structure StructuredDecomposition where
   pieceLocations : List (List Nat)
 deriving Repr, DecidableEq
 
-def StructuredDecomposition.isMeshed (sd : StructuredDecomposition) (dir : Nat) : Bool :=
-  match (sd.cellsPerAxis.getD dir []).head? with
-  | some n => 0 < n
+/-- `sizes[0] > 0` (`false` for an empty list, where the code would raise) -/
+def headPositive (l : List Int) : Bool :=
+  match l.head? with
+  | some n => decide (0 < n)
   | none => false
+
+def StructuredDecomposition.isMeshed (sd : StructuredDecomposition) (dir : Nat) : Bool :=
+  headPositive (sd.cellsPerAxis.getD dir [])
 
 def StructuredDecomposition.meshedDimensions (sd : StructuredDecomposition) : List Nat :=
   (List.range 3).filter sd.isMeshed
@@ -116,9 +121,7 @@ def structuredDecomposition (extents : List (List Int)) : StructuredDecompositio
   let ue := (List.range 3).map fun dir => uniqueSorted (ends dir)
   let sizes := (List.range 3).map fun dir =>
     List.zipWith (fun e b => e - b) (ue.getD dir []) (ub.getD dir [])
-  let has := fun (dir : Nat) => match (sizes.getD dir []).head? with
-    | some n => decide (0 < n)
-    | none => false
+  let has := fun (dir : Nat) => headPositive (sizes.getD dir [])
   let locs := extents.map fun e =>
     ((List.range 3).filter has).map fun dir => (ub.getD dir []).idxOf (e.getD (2 * dir) 0)
   ⟨sizes, locs⟩
@@ -196,6 +199,146 @@ def pvtrOrdinates (sd : StructuredDecomposition) (pieceOrds : List (List (List I
 def axisPieces (W : List Int) : Nat → List Nat → List (List Int)
   | _, [] => []
   | off, n :: r => (W.drop off).take (n + 1) :: axisPieces W (off + n) r
+
+/-! ### `_make_structured_mesh` of `PVTIReader` (image grids) and `PVTSReader` (structured grids) -/
+
+/-- an image grid as `ImageMesh` holds it: cells per direction, origin, spacing (unit counts), basis rows -/
+structure ImageGrid where
+  extents : List Int
+  origin : List Int
+  spacing : List Int
+  basis : List (List Int)
+deriving Repr, DecidableEq
+
+/-- exact product of two unit counts, in units (`U` fractional bits; floor if not a whole number of units) -/
+def mulUnits (U : Nat) (a b : Int) : Int := (a * b) / (2 : Int) ^ U
+
+def dotUnits (U : Nat) : List Int → List Int → Int
+  | a :: as, b :: bs => mulUnits U a b + dotUnits U as bs
+  | _, _ => 0
+
+/-- `origin + basis.dot(spacing * lower)` for integer `lower`, evaluated exactly (the same formula as
+    `Fc.C07.imagePointZ`; the floating evaluation agrees whenever `imageShiftExact` holds and the
+    result is representable) -/
+def imageShift (U : Nat) (origin : List Int) (basis : List (List Int)) (spacing lower : List Int) : List Int :=
+  let v := List.zipWith (· * ·) spacing lower
+  List.zipWith (fun o row => o + dotUnits U row v) origin basis
+
+/-- every product `B_rc · (spacing_c · lower_c)` is a whole number of units -/
+def imageShiftExact (U : Nat) (basis : List (List Int)) (spacing lower : List Int) : Bool :=
+  let v := List.zipWith (· * ·) spacing lower
+  basis.all fun row => (List.zipWith (fun a b => (a * b) % (2 : Int) ^ U == 0) row v).all id
+
+/-- `VTIReader._make_mesh` (since fix a3961d2) for a file with `Extent` = `extent` and the attributes
+    `Origin`, `Spacing`, `Direction`: cells per direction from the extent, the origin shifted to the
+    point with the lowest structured index of the file -/
+def vtiMesh (U : Nat) (extent origin spacing : List Int) (basis : List (List Int)) : ImageGrid :=
+  ⟨(List.range 3).map fun i => extent.getD (2 * i + 1) 0 - extent.getD (2 * i) 0,
+   imageShift U origin basis spacing ((List.range 3).map fun i => extent.getD (2 * i) 0), spacing, basis⟩
+
+/-- Python `min(…)` (`none` = `min()` of an empty sequence raises) -/
+def listMin : List Int → Option Int
+  | [] => none
+  | x :: r => some (r.foldl min x)
+
+/-- `min(e[2 * i] for e in piece_extents)` -/
+def minLower (extents : List (List Int)) (i : Nat) : Option Int :=
+  listMin (extents.map fun e => e.getD (2 * i) 0)
+
+/-- `PVTIReader._make_structured_mesh` (since fix 110e1da): extents from the decomposition; origin,
+    spacing and basis of the FIRST listed piece, the origin shifted by the lowest structured index of
+    all pieces -/
+def pvtiMesh (U : Nat) (sd : StructuredDecomposition) (extents : List (List Int))
+    (origin spacing : List Int) (basis : List (List Int)) : Option ImageGrid := do
+  let lower ← (List.range 3).mapM (minLower extents)
+  pure ⟨sd.mergedExtents, imageShift U origin basis spacing lower, spacing, basis⟩
+
+/-- `PVTSReader._make_structured_mesh`: the pieces' points are merged like a point field
+    (`merger.merge_point_fields(lambda loc: piece_points[decomposition.domain_id(loc)])`) -/
+def pvtsPoints (extents : List (List Int)) (piecePoints : List (List (List Int))) : List (List Int) :=
+  pvtkMergeField true extents piecePoints [0, 0, 0]
+
+/-! ### `_merge_structured`: the whole read of a structured parallel file
+
+  Arrays carry their dtype: the merged array is allocated with the dtype and entry shape of the
+  first piece the merger visits (fix a882a8e of finding F4). -/
+
+/-- rows of an array along axis 0 -/
+def arrRows (a : NdArr) : List (List Int) := (List.range (a.shape.headD 0)).map a.row
+
+/-- `StructuredFieldMerger._merge` on arrays (`mergeStructured` on their rows; values of a piece whose
+    dtype differs from the first piece's would be cast by numpy: not modelled, outside the hypothesis) -/
+def mergeStructuredArr (isPoint : Bool) (d : List (List Nat)) (cb : List Nat → NdArr) : NdArr :=
+  let first := cb ((locationsIn (piecesShape d)).headD [])
+  ⟨first.dtype, prodShape (mergedShape isPoint d) :: first.shape.tail,
+   (mergeStructured isPoint d (fun loc => arrRows (cb loc)) (List.replicate first.rowSize 0)).flatten⟩
+
+def emptyArr : NdArr := ⟨.flt f64, [0], []⟩
+
+/-- one field of `_merge_point_fields` / `_merge_cell_fields`: `vals` = the field's array of every
+    piece in listing order -/
+def pvtkMergeArr (isPoint : Bool) (extents : List (List Int)) (vals : List NdArr) : NdArr :=
+  let sd := structuredDecomposition extents
+  mergeStructuredArr isPoint sd.mergerDecomposition fun loc => vals.getD (sd.domainId loc) emptyArr
+
+/-- `_merge_point_fields` / `_merge_cell_fields`: names collected over all pieces (a Python `set`:
+    the model lists them by first occurrence, observables are compared by name), per name the arrays
+    of the pieces that carry it, in listing order -/
+def pvtkMergeFields (isPoint : Bool) (extents : List (List Int)) (pieceFields : List (List (String × NdArr))) :
+    List (String × NdArr) :=
+  (dedupNames (pieceFields.flatMap fun fs => fs.map (·.1))).map fun n =>
+    (n, pvtkMergeArr isPoint extents (pieceFields.filterMap fun fs => (fs.find? (·.1 == n)).map (·.2)))
+
+/-- geometry carried by a `.vti` / `.vtr` / `.vts` file: attributes `Origin`, `Spacing`, `Direction`;
+    the three `<Coordinates>` arrays; the `<Points>` rows (x running fastest) -/
+inductive SGeom where
+  | image (origin spacing : List Int) (basis : List (List Int))
+  | rect (ords : List (List Int))
+  | struct (pts : List (List Int))
+deriving Repr, DecidableEq
+
+/-- a sequential structured file (one `<Piece>`): `Extent`, geometry, data arrays by name -/
+structure SFile where
+  extent : List Int
+  geom : SGeom
+  pointFields : List (String × NdArr)
+  cellFields : List (String × NdArr)
+deriving Repr, DecidableEq
+
+/-- the mesh object a structured reader builds -/
+inductive SMesh where
+  | image (g : ImageGrid)
+  | rect (extents : List Int) (ords : List (List Int))
+  | struct (extents : List Int) (pts : List (List Int))
+deriving Repr, DecidableEq
+
+structure SRead where
+  mesh : SMesh
+  pointFields : List (String × NdArr)
+  cellFields : List (String × NdArr)
+deriving Repr, DecidableEq
+
+def SGeom.ords : SGeom → List (List Int)
+  | .rect o => o
+  | _ => []
+
+def SGeom.pts : SGeom → List (List Int)
+  | .struct p => p
+  | _ => []
+
+/-- `_PVTKReader._merge_structured` on the listed piece files (`none` = the reader raises) -/
+def pvtkReadStructured (U : Nat) (pieces : List SFile) : Option SRead :=
+  let extents := pieces.map (·.extent)
+  let sd := structuredDecomposition extents
+  let pf := pvtkMergeFields true extents (pieces.map (·.pointFields))
+  let cf := pvtkMergeFields false extents (pieces.map (·.cellFields))
+  match pieces.head? with
+  | none => none
+  | some first =>
+    match first.geom with
+    | .image O S B => (pvtiMesh U sd extents O S B).map fun g => ⟨.image g, pf, cf⟩
+    | .rect _ => (pvtrOrdinates sd (pieces.map (·.geom.ords))).map fun o => ⟨.rect sd.mergedExtents o, pf, cf⟩
+    | .struct _ => some ⟨.struct sd.mergedExtents (pvtsPoints extents (pieces.map (·.geom.pts))), pf, cf⟩
 
 /-! ### what an axis-aligned decomposition looks like (used by spec and generators) -/
 
